@@ -92,6 +92,9 @@ var (
 		"web", "web-1", "web-01", "web-2", "db", "db-1", "d", "w", "web|db", "a,b", "a=b", "a b", "a\\b", "b\\",
 		"\x00", "a\x01", "\x02x", "a\x001", "\x01\x01", "значение", "日本", "日", ".*", "web.1", "(", "[ab]", "^web$", "WEB", "Web",
 		"1", "01", "x", "", "", "webweb", "-", "b", "eb",
+		// a value extended by one of the index's escape / separator bytes sorts BEFORE the value's own
+		// terminator in the item space: pairs (V, V+sep+...) under one key
+		"web\x00a", "web\x01", "db\x02z", "x\x00", "w\x01w", "1\x00", "d\x00",
 	}
 	// regular expressions by class
 	reAlpha = []string{
